@@ -77,7 +77,7 @@ def r1_gate(ctx):
         for c in recs:
             if any(l.kind == "call" and re.search(r"from_http_request$", l.detail["callee"] or "") for l in tr.origins(b, c.args[1])):
                 rec_on_req = True
-            if any(l.kind == "field" and l.detail["fields"][-1][1] == "filter" for l in tr.origins(b, c.args[0])):
+            if any(l.kind == "field" and any(f_[1] == "filter" for f_ in l.detail["fields"]) for l in tr.origins(b, c.args[0])):
                 uses_filter = True
         # the bool that is finally tested: defined as const true on the None arm and as recognize()'s result on the Some arm
         for sb, blk in enumerate(b.blocks):
